@@ -243,5 +243,20 @@ def rule_r5(ctx) -> RuleResult:
     return rr
 
 
+def rule_r6(ctx, marker=None) -> RuleResult:
+    """mw.getCurrentFrame() and the environment a module runs in are the tops of two stacks; after
+    every invocation -- failed ones included -- both are popped (shared with C07.R4 / C09.R3)."""
+    from ..core.report import shared
+    from . import c07, c09
+
+    r = c09.rule_r3(ctx)
+    out = shared(r, "C08.R6", "the frame and environment stacks are popped after every invocation, failed ones included (shared with C09.R3)",
+                 "a later invocation sees the frame of an earlier, failed call as the current frame", min_instances=3)
+    r7 = c07.rule_r4(ctx, c07._marker(ctx))
+    for f in r7.findings:
+        if "pop" in f.message or "stack" in f.message:
+            out.bad(Finding("C08.R6", f.file, f.function, f.construct, f.message, f.line))
+    return out
+
 def run(ctx) -> list:
-    return [rule_r1(ctx), rule_r2(ctx), rule_r3(ctx), rule_r4(ctx), rule_r5(ctx)]
+    return [rule_r1(ctx), rule_r2(ctx), rule_r3(ctx), rule_r4(ctx), rule_r5(ctx), rule_r6(ctx)]
